@@ -4,7 +4,7 @@
 From Coq Require Import ZArith NArith List Bool Permutation.
 From XV Require Import core.Value model.Hash model.Cache model.Edits
   model.Spec model.Seal proofs.Hash_lemmas proofs.Neutral_lemmas proofs.Cache_lemmas proofs.Spec_lemmas
-  proofs.Walk_reach_lemmas proofs.Vperm_lemmas.
+  proofs.Walk_reach_lemmas proofs.Vperm_lemmas model.HashReach proofs.Cyclic_lemmas.
 Import ListNotations.
 
 (* keyword order: the stored values of any node in another order (distinct
@@ -100,3 +100,48 @@ Theorem C01_dict_insertion_order : forall H cs h look n x k v v',
                = raw_ident H cs (upd_nth h n (with_fields x (set_field k v' (n_fields x)))) look fuel m.
 Proof. exact dict_order_neutral. Qed.
 Print Assumptions C01_dict_insertion_order.
+
+(* CYCLIC graphs, repaired cache (fix af4df17: the loop flag is recorded truthfully).
+   1. a false loop flag is truthful: no hash cycle passes through the node                      *)
+Theorem C01_flag_false_means_no_cycle : forall H cs h fuel n d,
+  hnode H cs h (fun _ => None) fuel [] n = Ok (d, 0) -> ~ reach_avoid cs h [n] n n.
+Proof. exact flag_false_no_cycle. Qed.
+Print Assumptions C01_flag_false_means_no_cycle.
+
+(* 2. such a node hashes to the same bytes in every context (any stack of enclosing nodes that is
+      a chain of hash edges down to it), with every fuel: reusing its cached identifier is sound *)
+Theorem C01_flag_false_context_independent : forall H cs h fuel0 n d st,
+  hnode H cs h (fun _ => None) fuel0 [] n = Ok (d, 0) ->
+  chain cs h (n :: st) ->
+  forall fuel, hnode H cs h (fun _ => None) fuel st n = hnode H cs h (fun _ => None) fuel [] n.
+Proof. exact flag_false_context_independent. Qed.
+Print Assumptions C01_flag_false_context_independent.
+
+(* 3. the computation is monotone in fuel: more fuel never changes a result                      *)
+Theorem C01_fuel_monotone : forall H cs h look f f' st n r,
+  f <= f' -> hnode H cs h look f st n = Ok r -> hnode H cs h look f' st n = Ok r.
+Proof. exact hnode_mono. Qed.
+Print Assumptions C01_fuel_monotone.
+
+(* 4. the cache machine is sound on ANY graph, cycles included, for EVERY history of identifier
+      requests and seals: each answer is the identifier computed afresh with no cache ...        *)
+Theorem C01_cache_sound_cyclic : forall H cs h fuel ops s, csound_c H cs h s ->
+  Forall2 (answer_pure H cs h) ops (run H cs h fuel true s ops).
+Proof. exact cache_sound_cyclic. Qed.
+Print Assumptions C01_cache_sound_cyclic.
+
+Theorem C01_initial_state_sound_cyclic : forall H cs h flags, csound_c H cs h (map centry0 flags).
+Proof. exact csound_c_init. Qed.
+Print Assumptions C01_initial_state_sound_cyclic.
+
+(* 5. ... hence two histories (any requests, any seals, any sound starting caches, any fuels) that
+      both answer the same request answer it with the same identifier - the statement that
+      C01_cache_prefix_refuted shows to be FALSE of the code before the repair                   *)
+Theorem C01_history_independent_cyclic : forall H cs h fuel1 fuel2 ops1 ops2 s1 s2 i j o d1 d2,
+  csound_c H cs h s1 -> csound_c H cs h s2 ->
+  nth_error ops1 i = Some o -> nth_error ops2 j = Some o ->
+  nth_error (run H cs h fuel1 true s1 ops1) i = Some (ADigest d1) ->
+  nth_error (run H cs h fuel2 true s2 ops2) j = Some (ADigest d2) ->
+  d1 = d2.
+Proof. exact history_independent_cyclic. Qed.
+Print Assumptions C01_history_independent_cyclic.
